@@ -18,7 +18,8 @@ def who(request, encoding='utf-8'):
     ip = request.remote.ip
     agent = request.headers.get('User-Agent', '')
 
-    return sha(f'{ip}{agent}'.encode(encoding)).hexdigest()
+    # neither part can contain a line feed: distinct (address, agent) pairs never give the same text
+    return sha(f'{ip}\n{agent}'.encode(encoding)).hexdigest()
 
 
 def create_session(request):
